@@ -39,6 +39,9 @@ structure State where
   core : Core.State := {}
   deriving Repr, Inhabited
 
+/-- the empty system; `reserve` / `max` = the two proactive-filling parameters of the core (`{}` = `initState 1 1`) -/
+def initState (reserve max : Nat) : State := { core := { prefillReserve := reserve, prefillMax := max } }
+
 inductive Stop where
   /-- a panic site of the job layer (M4) -/
   | job (site : String)
